@@ -26,7 +26,7 @@ PROPS = {
     "C02": {
         "lean_modules": ["RosedVerif.Props.C02"],
         "theorems": "auto",
-        "groups": ["G-class", "G-probe"],
+        "groups": ["G-class", "G-probe", "G-split"],
         "oracle": True,
         "tie": "REGENERATED: the 14 range tables are re-extracted from graphemeclusters.go on every run and "
                "every theorem is re-checked against them; extraction validated by executing the real predicates",
